@@ -713,6 +713,53 @@ def delegationRecordsZone (ctx : Ctx) (zoneEmpty : Bool) : NssResult → Bool
   | .noServers => zoneFailureAdmitted ctx zoneEmpty .other
   | _ => false
 
+/-! ### the per-address circuit breaker (middleware/resolver/circuit_breaker.go) -/
+
+/-- `serverFailure`: consecutive failures, the last failure (whole Unix
+seconds, as the code stores it) and the open flag. -/
+structure SF where
+  count : Nat
+  last : Int
+  disabled : Bool
+deriving DecidableEq, Repr
+
+/-- `circuitBreaker.failures`: at most one record per address. -/
+abbrev Breaker := List (String × SF)
+
+def Breaker.get : Breaker → String → Option SF
+  | [], _ => none
+  | (k, v) :: r, a => if k = a then some v else Breaker.get r a
+
+def Breaker.put (b : Breaker) (a : String) (v : SF) : Breaker :=
+  (a, v) :: b.filter (fun p => p.1 != a)
+
+/-- `canQuery(server)` at wall-clock `nowMs` (milliseconds): an open breaker is
+closed again (count reset) once more than 30 s passed since the last failure. -/
+def Breaker.canQuery (b : Breaker) (nowMs : Int) (a : String) : Breaker × Bool :=
+  match b.get a with
+  | none => (b, true)
+  | some sf =>
+    if sf.disabled then
+      if nowMs - sf.last * 1000 > 30000 then (b.put a { sf with disabled := false, count := 0 }, true)
+      else (b, false)
+    else (b, true)
+
+/-- `recordFailure(server)`: count up, stamp the second, open at five. -/
+def Breaker.recordFailure (b : Breaker) (nowMs : Int) (a : String) : Breaker :=
+  let sf := (b.get a).getD ⟨0, 0, false⟩
+  let count := sf.count + 1
+  b.put a { count := count, last := nowMs / 1000, disabled := sf.disabled || decide (count ≥ 5) }
+
+/-- `recordSuccess(server)`: an existing record is closed and its count cleared. -/
+def Breaker.recordSuccess (b : Breaker) (a : String) : Breaker :=
+  match b.get a with
+  | none => b
+  | some sf => b.put a { sf with count := 0, disabled := false }
+
+/-- `cleanupOnce(now)`: drop every record idle for more than 300 s. -/
+def Breaker.cleanupOnce (b : Breaker) (nowS : Int) : Breaker :=
+  b.filter (fun p => !decide (nowS - p.2.last > 300))
+
 /-! ### `FailureHit.Response` -/
 
 structure ReqOpt where
